@@ -415,6 +415,17 @@ def directed():
                "per_channel": False, "qdelay": 1}),
       ("vec", {"t": "QAdaptiveActivation", "act": "quantized_bits", "bits": 6,
                "per_channel": True, "qdelay": 2}),
+      ("vec", {"t": "QAdaptiveActivation", "act": "quantized_relu", "bits": 6,
+               "per_channel": False, "qdelay": 1, "ema_decay": 0.5}),
+      ("vec", {"t": "QAdaptiveActivation", "act": "quantized_bits", "bits": 4,
+               "per_channel": True, "qdelay": 1, "ema_decay": 0.0,
+               "po2_rounding": True}),
+      ("vec", {"t": "QAdaptiveActivation", "act": "quantized_relu", "bits": 6,
+               "per_channel": False, "qdelay": 1, "ema_decay": 0.9,
+               "relu_upper_bound": 0.75, "relu_neg_slope": 0.125}),
+      ("img", {"t": "QAdaptiveActivation", "act": "quantized_relu", "bits": 8,
+               "per_channel": True, "qdelay": 2, "ema_decay": 0.5,
+               "ema_freeze_delay": 2}),
       ("vec", {"t": "QBatchNormalization", "center": True, "scale": True,
                "defaults": True}),
       ("vec", {"t": "QBatchNormalization", "center": False, "scale": True,
